@@ -19,5 +19,14 @@ if '<!-- asbuilt table begin -->' in s:
     s = re.sub(r'<!-- asbuilt table begin -->.*?<!-- asbuilt table end -->', lambda _: blk, s, flags=re.S)
 else:
     s = s.replace('## 10. Seeded changes', '### 9.7 Numbers of the last run (quick tier), from the evidence files\n\n' + blk + '\n\n## 10. Seeded changes', 1)
+m = json.load(open(V + '/MANIFEST.json'))
+claims = ['* **%s** (%s): %s' % (c['property_id'], c['level_claimed']['category'], c['level_claimed']['text']) for c in m['checks']]
+nas = ['* **%s**: not applicable / not claimed: %s' % (n['property_id'], n['reason']) for n in m.get('not_applicable', [])]
+blk2 = '<!-- claims begin -->\n' + '\n'.join(claims + nas) + '\n<!-- claims end -->'
+if '<!-- claims begin -->' in s:
+    s = re.sub(r'<!-- claims begin -->.*?<!-- claims end -->', lambda _: blk2, s, flags=re.S)
+else:
+    s = s.replace('## 10. Seeded changes', '### 9.8 What each registered check claims (copied from MANIFEST.json by tools/asbuilt_table.py)\n\n'
+                  'These texts, not the plan of section 3, state what is decided. Section 3 remains the rationale for the contracts.\n\n' + blk2 + '\n\n## 10. Seeded changes', 1)
 open(p, 'w').write(s)
-print(len(rows), 'rows')
+print(len(rows), 'rows', len(claims), 'claims')
